@@ -20,7 +20,14 @@ Supported subset (anything else raises Reject — the translator never guesses):
     a tuple of such).  Bound methods and tuples of them are translation-time values: `cfuns[0](pt)`,
     `cfuns[1:]`, `fn(pt)` are resolved statically;
   * `for x in <tuple>`, `for i, x in enumerate(<tuple>, start=k)`, `for i in range(consts)`, `zip(...)` over
-    translation-time sequences are unrolled; `x += e` is `x = x + e`.
+    translation-time sequences are unrolled; `x += e` is `x = x + e`;
+  * conditions known at translation time may be combined with `not`, `and`, `or` (short-circuit, left to right:
+    an operand that is not known makes the whole condition unknown unless an earlier operand already decided it),
+    `const in [consts]` / `not in`, and appear in `a if cond else b`; `if c: return a` followed by `return b`,
+    returns in both arms and swapped arms are the same thing to the translator (it follows the arm taken);
+  * the builtin `pow(x, y)` is `x ** y`; a constant exponent that is not an integer goes through `kpow`;
+  * a module-level `NAME = namedtuple('NAME', [fields])` is a translation-time record: `NAME(a, b, f=c)` is the tuple
+    of its fields in declaration order, `rec.f` / `rec[k]` a projection, unpacking is positional.
 
 Types: R (real scalar K), C (Cx K), T[...] (tuple).  Real/complex mixing is made explicit
 (Cx.ofReal, Cx.smul, Cx.divR).
@@ -73,7 +80,27 @@ class Module:
         self.tree = ast.parse(self.src)
         self.functions = {}
         self.classes = {}
+        self.records = {}      # module-level  NAME = namedtuple('NAME', fields)  ->  tuple of field names
+        self.bound = set()     # every name bound at module level (a builtin such as `pow` must not be among them)
+        self.modalias = {}     # local name -> 'numpy' | 'math'  (import numpy as np / import math)
+        for node in ast.walk(self.tree):
+            if isinstance(node, (ast.Import, ast.ImportFrom)):
+                for a in node.names:
+                    self.bound.add((a.asname or a.name).split('.')[0])
+                    if isinstance(node, ast.Import) and a.name in ('numpy', 'math'):
+                        self.modalias[a.asname or a.name] = a.name
         for node in self.tree.body:
+            if isinstance(node, (ast.FunctionDef, ast.ClassDef)):
+                self.bound.add(node.name)
+            elif isinstance(node, (ast.Assign, ast.AnnAssign, ast.AugAssign)):
+                for t in (node.targets if isinstance(node, ast.Assign) else [node.target]):
+                    for x in ast.walk(t):
+                        if isinstance(x, ast.Name):
+                            self.bound.add(x.id)
+            if isinstance(node, ast.Assign) and len(node.targets) == 1 and isinstance(node.targets[0], ast.Name):
+                fields = self.namedtuple_fields(node.value)
+                if fields is not None:
+                    self.records[node.targets[0].id] = fields
             if isinstance(node, ast.FunctionDef):
                 self.functions[node.name] = node
             elif isinstance(node, ast.ClassDef):
@@ -90,6 +117,38 @@ class Module:
                             tables.setdefault(t.value.id, {})[key] = b.value.id
                 bases = [x.id if isinstance(x, ast.Name) else x.attr for x in node.bases]
                 self.classes[node.name] = ClassInfo(node.name, bases, methods, tables)
+
+    @staticmethod
+    def namedtuple_fields(v):
+        """field names of  namedtuple('X', ['a', 'b'])  /  namedtuple('X', 'a b')  /  collections.namedtuple(...), else None"""
+        if not (isinstance(v, ast.Call) and len(v.args) == 2 and not v.keywords):
+            return None
+        f = v.func
+        name = f.id if isinstance(f, ast.Name) else f.attr if isinstance(f, ast.Attribute) and isinstance(f.value, ast.Name) \
+            and f.value.id == 'collections' else None
+        if name != 'namedtuple':
+            return None
+        try:
+            spec = ast.literal_eval(v.args[1])
+        except (ValueError, SyntaxError):
+            return None
+        if isinstance(spec, str):
+            spec = spec.replace(',', ' ').split()
+        if not isinstance(spec, (list, tuple)) or not spec or not all(isinstance(x, str) and x.isidentifier() for x in spec) \
+                or len(set(spec)) != len(spec):
+            return None
+        return tuple(spec)
+
+
+class RecT(tuple):
+    """type of a translation-time record (namedtuple): the tuple of its field types, plus the field names"""
+    fields = ()
+
+    @staticmethod
+    def make(types, fields):
+        t = RecT(types)
+        t.fields = tuple(fields)
+        return t
 
 
 class Translator:
@@ -182,7 +241,7 @@ class Translator:
                     env[p] = ('var', R)
                 lean_params = '(c : Consts) ' + ' '.join('(%s : K)' % self.safe(p) for p in params)
         ctx = dict(cls=cls, defcls=defcls, fname=node.name, callees=[], reads=set(), callmap={}, aenv={}, ret_abs=[], mreads=set(),
-                   inlined=[], inl_abs={})
+                   inlined=[], inl_abs={}, recargs={})
         body, typ = self.block(node.body, env, ctx)
         sig = (defcls, node.name, spec, tuple(ctx['callees'])) + ((tuple(ctx['inlined']),) if ctx['inlined'] else ())
         key = hashlib.sha1(repr(sig).encode()).hexdigest()
@@ -262,6 +321,8 @@ class Translator:
                     raise Reject('%s: augmented assignment to %s' % (ctx['fname'], type(st.target).__name__))
                 st = ast.Assign(targets=[ast.Name(id=st.target.id, ctx=ast.Store())],
                                 value=ast.BinOp(left=ast.Name(id=st.target.id, ctx=ast.Load()), op=st.op, right=st.value))
+            if isinstance(st, ast.AnnAssign) and st.value is not None and st.simple:
+                st = ast.Assign(targets=[st.target], value=st.value)        # x: float = e  (the annotation is not evaluated into the value)
             if isinstance(st, ast.Assign):
                 self.assign(st, env, ctx, indent, lines)
                 continue
@@ -293,6 +354,15 @@ class Translator:
         if len(st.targets) != 1:
             raise Reject('chained assignment')
         tgt = st.targets[0]
+        if isinstance(tgt, ast.Name) and (isinstance(st.value, (ast.Compare, ast.BoolOp)) or (
+                isinstance(st.value, ast.UnaryOp) and isinstance(st.value.op, ast.Not)) or ast.unparse(st.value) in self.static_conds):
+            # flag = <condition known at translation time>: a translation-time truth value (never a Lean number)
+            cv = self.static(st.value, env, ctx)
+            if cv is None:
+                raise Reject('%s: non-static condition: %s' % (ctx['fname'], ast.unparse(st.value)))
+            env[tgt.id] = ('const', bool(cv))
+            ctx['aenv'].pop(tgt.id, None)
+            return
         if isinstance(tgt, ast.Name):
             sv = self.static_value(st.value, env, ctx)
             if sv is not None and self.symbolic(sv):
@@ -457,11 +527,30 @@ class Translator:
         if isinstance(node, ast.UnaryOp):
             return self.absval(node.operand, aenv, ctx)
         if isinstance(node, ast.Attribute):
+            v = self.absval(node.value, aenv, ctx) if not isinstance(node.value, ast.Name) or node.value.id in aenv else T()
+            if v[0] == 'T' and len(v) > 2:
+                return v[1][v[2].index(node.attr)] if node.attr in v[2] else T()      # field of a record
             if node.attr in ('real', 'imag'):
-                v = self.absval(node.value, aenv, ctx)
                 if v[0] == 'C':
                     k = 0 if node.attr == 'real' else 1
                     return self.aR(lambda c: v[1][c][k])
+            return T()
+        if isinstance(node, ast.Subscript):
+            v = self.absval(node.value, aenv, ctx)
+            k = None if isinstance(node.slice, ast.Slice) else self.const_value(node.slice, {})
+            if v[0] == 'T' and isinstance(k, int) and -len(v[1]) <= k < len(v[1]):
+                return v[1][k]
+            return T()
+        if isinstance(node, ast.IfExp):
+            taken = ctx.get('recargs', {}).get(('ifexp', id(node)))
+            if taken is not None:         # the arm expr() has taken for this specialisation
+                return self.absval(taken, aenv, ctx)
+            # otherwise: what holds for both arms
+            a, b = self.absval(node.body, aenv, ctx), self.absval(node.orelse, aenv, ctx)
+            if a[0] == 'R' and b[0] == 'R':
+                return self.aR(lambda c: a[1][c] and b[1][c])
+            if a[0] == 'C' and b[0] == 'C':
+                return ('C', {c: (a[1][c][0] and b[1][c][0], a[1][c][1] and b[1][c][1]) for c in self.CONDS})
             return T()
         if isinstance(node, ast.BinOp):
             a, b = self.absval(node.left, aenv, ctx), self.absval(node.right, aenv, ctx)
@@ -505,6 +594,11 @@ class Translator:
                 return self.aR(lambda c: f.attr in self.CONDS[c])
             if id(node) in ctx.get('inl_abs', {}):
                 return ctx['inl_abs'][id(node)]
+            if id(node) in ctx.get('recargs', {}) and isinstance(f, ast.Name) and f.id in self.mod.records:
+                return ('T', [self.absval(a, aenv, ctx) for a in ctx['recargs'][id(node)]], self.mod.records[f.id])
+            if isinstance(f, ast.Name) and f.id == 'pow' and f.id not in self.mod.bound and len(node.args) == 2:
+                a = self.absval(node.args[0], aenv, ctx)
+                return a if a[0] == 'R' else T()
             name = ctx.get('callmap', {}).get(id(node))
             if name and name in self.meta:
                 van = self.meta[name].get('vanish', {})
@@ -512,6 +606,8 @@ class Translator:
                     return self.aR(lambda c: bool(van.get(c)))
             if isinstance(f, ast.Name) and f.id in self.np and f.id in ('sqrt', 'sin'):
                 return self.absval(node.args[0], aenv, ctx) if node.args else T()
+            if self.qualified(f, {}) in ('sqrt', 'sin') and len(node.args) == 1:
+                return self.absval(node.args[0], aenv, ctx)
             return T()
         return T()
 
@@ -519,24 +615,54 @@ class Translator:
         return not (stmts and isinstance(stmts[-1], (ast.Return, ast.Raise)))
 
     def static(self, test, env, ctx):
-        """value of a condition known at translation time, else None"""
+        """value of a condition known at translation time, else None.  Structural: `not`, `and` / `or` (short-circuit,
+        left to right), comparisons and membership tests of constants; the leaves may be given by `static_conds`
+        (source text of an ATOMIC condition such as `hasattr(pt, 's')` -> its value)."""
         src = ast.unparse(test)
         if src in self.static_conds:
             return self.static_conds[src]
+        if isinstance(test, ast.Constant) and isinstance(test.value, (bool, int, float)):
+            return bool(test.value)
         if isinstance(test, ast.Name) and env.get(test.id, (None,))[0] == 'const':
             return bool(env[test.id][1])
         if isinstance(test, ast.UnaryOp) and isinstance(test.op, ast.Not):
             v = self.static(test.operand, env, ctx)
             return None if v is None else not v
-        if isinstance(test, ast.Compare) and len(test.ops) == 1:
-            a, b = self.const_value(test.left, env), self.const_value(test.comparators[0], env)
-            num = lambda v: isinstance(v, (int, float))
-            if num(a) and num(b):
-                op = test.ops[0]
-                for cls_, f in ((ast.Eq, lambda: a == b), (ast.NotEq, lambda: a != b), (ast.Lt, lambda: a < b),
-                                (ast.LtE, lambda: a <= b), (ast.Gt, lambda: a > b), (ast.GtE, lambda: a >= b)):
-                    if isinstance(op, cls_):
-                        return f()
+        if isinstance(test, ast.BoolOp):
+            # Python evaluates left to right and stops at the first operand that decides; an operand whose value is
+            # not known before that makes the whole condition unknown (it might also raise)
+            stop = isinstance(test.op, ast.Or)
+            for operand in test.values:
+                v = self.static(operand, env, ctx)
+                if v is None:
+                    return None
+                if v == stop:
+                    return stop
+            return not stop
+        if isinstance(test, ast.Compare):
+            # a chain  a < b <= c  is the conjunction of its links; every operand must be a constant
+            vals = [self.const_value(x, env) for x in [test.left] + list(test.comparators)]
+            num = lambda v: isinstance(v, (int, float)) and not isinstance(v, bool)
+            out = True
+            for a, op, b, bnode in zip(vals, test.ops, vals[1:], test.comparators):
+                if isinstance(op, (ast.In, ast.NotIn)):
+                    seq = self.const_seq(bnode, env)
+                    if seq is None or not (num(a) or isinstance(a, str)):
+                        return None
+                    r = a in seq
+                    r = r if isinstance(op, ast.In) else not r
+                elif (num(a) and num(b)) or (isinstance(a, str) and isinstance(b, str) and isinstance(op, (ast.Eq, ast.NotEq))):
+                    for cls_, f in ((ast.Eq, lambda: a == b), (ast.NotEq, lambda: a != b), (ast.Lt, lambda: a < b),
+                                    (ast.LtE, lambda: a <= b), (ast.Gt, lambda: a > b), (ast.GtE, lambda: a >= b)):
+                        if isinstance(op, cls_):
+                            r = f()
+                            break
+                    else:
+                        return None
+                else:
+                    return None
+                out = out and r
+            return out
         return None
 
     # ------------------------------------------------------------------ expressions
@@ -571,6 +697,13 @@ class Translator:
             return None if any(v is None for v in vs) else tuple(vs)
         if isinstance(node, ast.Constant) and isinstance(node.value, str):
             return node.value
+        return None
+
+    def const_seq(self, node, env):
+        """a list / tuple / set display of constants as a tuple (right-hand side of `in`), else None"""
+        if isinstance(node, (ast.List, ast.Tuple, ast.Set)):
+            vs = [self.const_value(e, env) for e in node.elts]
+            return None if any(v is None for v in vs) else tuple(vs)
         return None
 
     def to_c(self, e, t):
@@ -609,17 +742,47 @@ class Translator:
                 self.field(self.pt_fields, node.attr)
                 ctx['reads'].add(node.attr)
                 return 'pt.%s' % self.safe(node.attr), R
+            if isinstance(node.value, ast.Name) and node.value.id == 'self':
+                raise Reject('attribute %s' % ast.unparse(node))
+            if self.qualified(node, env) == 'pi' and 'pi' in self.consts:
+                return self.consts['pi'], R
+            e, t = self.expr(node.value, env, ctx)
+            if isinstance(t, RecT):
+                if node.attr not in t.fields:
+                    raise Reject('%s: record has no field %s' % (ctx['fname'], node.attr))
+                return self.proj(e, t, t.fields.index(node.attr))
             if node.attr in ('real', 'imag'):
-                e, t = self.expr(node.value, env, ctx)
                 if t != C:
                     raise Reject('.real of non-complex')
                 return '%s.%s' % (self.paren(e), 're' if node.attr == 'real' else 'im'), R
             raise Reject('attribute %s' % ast.unparse(node))
+        if isinstance(node, ast.Subscript):
+            # rec[k] / tup[k] with a constant index on a tuple-valued expression
+            e, t = self.expr(node.value, env, ctx)
+            k = None if isinstance(node.slice, ast.Slice) else self.const_value(node.slice, env)
+            if not isinstance(t, tuple) or not isinstance(k, int) or isinstance(k, bool):
+                raise Reject('%s: subscript %s' % (ctx['fname'], ast.unparse(node)[:60]))
+            if not -len(t) <= k < len(t):
+                raise Reject('%s: index %d out of range' % (ctx['fname'], k))
+            return self.proj(e, t, k % len(t))
+        if isinstance(node, ast.IfExp):
+            cond = self.static(node.test, env, ctx)
+            if cond is None:
+                raise Reject('%s: non-static condition: %s' % (ctx['fname'], ast.unparse(node.test)))
+            ctx['recargs'][('ifexp', id(node))] = node.body if cond else node.orelse     # for the vanishing analysis
+            return self.expr(node.body if cond else node.orelse, env, ctx)
         if isinstance(node, ast.BinOp):
             return self.binop(node, env, ctx)
         if isinstance(node, ast.Call):
             return self.call(node, env, ctx)
         raise Reject('%s: expression %s' % (ctx['fname'], type(node).__name__))
+
+    def proj(self, e, t, k):
+        """k-th component of the tuple-typed term e (Lean tuples nest to the right)"""
+        n = len(t)
+        if n == 1:
+            return e, t[0]
+        return self.paren(e) + '.2' * k + ('.1' if k < n - 1 else ''), t[k]
 
     def paren(self, e):
         return e if (e.startswith('(') and e.endswith(')')) or e.replace('.', '').replace('_', '').isalnum() else '(%s)' % e
@@ -666,8 +829,25 @@ class Translator:
             return '(%s / %s)' % (self.to_c(a, at), b), C
         raise Reject('binop')
 
+    def qualified(self, f, env):
+        """np.sqrt / math.cos / np.pi …: the bare name when the prefix is numpy or math imported as a module"""
+        if isinstance(f, ast.Attribute) and isinstance(f.value, ast.Name) and f.value.id in self.mod.modalias \
+                and f.value.id not in env:
+            return f.attr
+        return None
+
     def call(self, node, env, ctx):
         f = node.func
+        q = self.qualified(f, env)
+        if q is not None:
+            if q not in self.np:
+                raise Reject('%s: call %s' % (ctx['fname'], ast.unparse(node)[:60]))
+            if len(node.args) != 1 or node.keywords:
+                raise Reject('call %s' % q)
+            e, t = self.expr(node.args[0], env, ctx)
+            if t != R:
+                raise Reject('%s of complex' % q)
+            return '(%s %s)' % (self.np[q], e), R
         # numpy / module functions
         if isinstance(f, ast.Name):
             if f.id in self.np:
@@ -677,10 +857,45 @@ class Translator:
                 if t != R:
                     raise Reject('%s of complex' % f.id)
                 return '(%s %s)' % (self.np[f.id], e), R
+            if f.id == 'pow' and f.id not in env and f.id not in self.mod.bound and f.id not in self.consts:
+                # the builtin: pow(x, y) is x ** y (the three-argument form is integer arithmetic: not here)
+                if len(node.args) != 2 or node.keywords:
+                    raise Reject('%s: call %s' % (ctx['fname'], ast.unparse(node)[:60]))
+                return self.binop(ast.BinOp(left=node.args[0], op=ast.Pow(), right=node.args[1]), env, ctx)
+            if f.id in self.mod.records and f.id not in env:
+                # construction of a module-level namedtuple: the tuple of its fields in declaration order
+                fields = self.mod.records[f.id]
+                given = dict(zip(fields, node.args))
+                if len(node.args) > len(fields):
+                    raise Reject('%s: too many fields for %s' % (ctx['fname'], f.id))
+                for kw in node.keywords:
+                    if kw.arg is None or kw.arg not in fields or kw.arg in given:
+                        raise Reject('%s: field of %s' % (ctx['fname'], f.id))
+                    given[kw.arg] = kw.value
+                if set(given) != set(fields):
+                    raise Reject('%s: %s needs every field' % (ctx['fname'], f.id))
+                # Python evaluates the arguments in the order written; the expressions are pure, so the order of the
+                # components is all that matters
+                parts = [self.expr(given[fl], env, ctx) for fl in fields]
+                if any(isinstance(pt_, tuple) or pt_ not in (R, C) for _, pt_ in parts):
+                    raise Reject('%s: field of %s is not a scalar' % (ctx['fname'], f.id))
+                ctx['recargs'][id(node)] = [given[fl] for fl in fields]
+                e = parts[0][0] if len(parts) == 1 else '(' + ', '.join(x for x, _ in parts) + ')'
+                return e, RecT.make([t_ for _, t_ in parts], fields)
             if f.id in self.module_funcs:
-                lname, _ = self.module_funcs[f.id]
-                args = [self.expr(a, env, ctx) for a in node.args]
-                if node.keywords or any(t not in (R, 'Pt') for _, t in args):
+                lname, params = self.module_funcs[f.id]
+                argn = list(node.args)
+                if node.keywords:
+                    # keyword arguments are put in the callee's parameter order (when that is known)
+                    kws = {k.arg: k.value for k in node.keywords}
+                    if params is None or None in kws or len(argn) + len(kws) != len(params) \
+                            or set(kws) != set(params[len(argn):]):
+                        raise Reject('call %s' % f.id)
+                    argn += [kws[p_] for p_ in params[len(argn):]]
+                elif params is not None and len(argn) != len(params):
+                    raise Reject('%s: %s takes %d arguments' % (ctx['fname'], f.id, len(params)))
+                args = [('pt', 'Pt') if isinstance(a, ast.Name) and env.get(a.id, (None,))[0] == 'pt' else self.expr(a, env, ctx) for a in argn]
+                if any(t not in (R, 'Pt') for _, t in args):
                     raise Reject('call %s' % f.id)
                 ctx['callees'].append(lname)
                 return '(%s c %s)' % (lname, ' '.join(a for a, _ in args)), R
@@ -688,9 +903,17 @@ class Translator:
                 # a module-level helper (not a requested entry point): inlined
                 return self.inline_function(self.mod.functions[f.id], node, env, ctx)
             if f.id in self.mod.functions and f.id not in env:
-                lname, t = self.gen_func(self.mod.functions[f.id])
+                callee = self.mod.functions[f.id]
+                lname, t = self.gen_func(callee)
+                # every parameter exactly once, positional first, keywords put in the callee's order (no defaults:
+                # the generated definition takes all of them)
+                params = [a.arg for a in callee.args.args]
+                kws = {k.arg: k.value for k in node.keywords}
+                if None in kws or callee.args.vararg or callee.args.kwarg or callee.args.kwonlyargs or callee.args.posonlyargs \
+                        or len(node.args) + len(kws) != len(params) or set(kws) != set(params[len(node.args):]):
+                    raise Reject('%s: arguments of %s' % (ctx['fname'], f.id))
                 args = []
-                for a in node.args:
+                for a in list(node.args) + [kws[p_] for p_ in params[len(node.args):]]:
                     if isinstance(a, ast.Name) and env.get(a.id, (None,))[0] == 'pt':
                         args.append('pt')
                     else:
